@@ -1,6 +1,6 @@
 (* Source semantics of the Bip32Path object methods (regenerated terms of wallet_utils.py): list_get, _to_list, to_list,
    integrity_check, the constructor, m, repr_hardened, __repr__ and parse = Model/WalletUtils.v. *)
-From BHW Require Import Lib.Base Lib.ListAux Lib.PyInt Model.Helper Model.WalletUtils Py.Interp Py.Tactics Proofs.PyPath.
+From BHW Require Import Lib.Base Lib.ListAux Lib.PyInt Model.Helper Model.WalletUtils Py.Interp Py.Tactics Proofs.Path Proofs.PyPath.
 From BHWGen Require Import Consts PyAst.
 Open Scope string_scope.
 Open Scope Z_scope.
@@ -39,3 +39,188 @@ Proof. destruct a, b, c, d, e; reflexivity. Qed.
 Lemma m_sem ext fuel a b c d e prv :
   sem_wallet_utils__Bip32Path__m ext fuel [vpath5 a b c d e prv] = Val (VStr (if prv then [109] else [77])).
 Proof. destruct prv; reflexivity. Qed.
+
+Lemma str_of_nonneg_eq n : map (fun d => 48 + d) (digits_be 10 n) = str_of_nonneg n.
+Proof.
+  unfold digits_be, str_of_nonneg. destruct (n =? 0); [reflexivity|].
+  apply map_ext. intros d. lia.
+Qed.
+Lemma str_of_int_eq n : Interp.str_of_int n = WalletUtils.str_of_int n.
+Proof. unfold Interp.str_of_int, WalletUtils.str_of_int. rewrite !str_of_nonneg_eq. reflexivity. Qed.
+
+Lemma repr_hardened_sem ext fuel self n :
+  sem_wallet_utils__Bip32Path__repr_hardened ext fuel [self; VInt n] = Val (VStr (repr_hardened n)).
+Proof.
+  unfold sem_wallet_utils__Bip32Path__repr_hardened, call, ast_wallet_utils__Bip32Path__repr_hardened, repr_hardened. pystep.
+  change (2 ^ 31) with 2147483648. replace (n >=? 2147483648) with (2147483648 <=? n) by lia.
+  destruct (2147483648 <=? n); pystep; rewrite str_of_int_eq; reflexivity.
+Qed.
+
+(* integrity_check and the constructor on slots that hold ints or None *)
+Lemma integrity_check_sem ext fuel a b c d e prv :
+  sem_wallet_utils__Bip32Path__integrity_check ext fuel [vpath5 a b c d e prv]
+  = if integrity [a; b; c; d; e] false then Val VNone else Exc RuntimeError.
+Proof. destruct a, b, c, d, e; reflexivity. Qed.
+
+Lemma init_sem ext fuel a b c d e prv :
+  sem_wallet_utils__Bip32Path____init__ ext fuel [vopt a; vopt b; vopt c; vopt d; vopt e; VBool prv]
+  = if integrity [a; b; c; d; e] false then Val (vpath5 a b c d e prv) else Exc RuntimeError.
+Proof. destruct a, b, c, d, e; reflexivity. Qed.
+
+#[global] Arguments sem_wallet_utils__Bip32Path__to_list : simpl never.
+#[global] Arguments sem_wallet_utils__Bip32Path__repr_hardened : simpl never.
+#[global] Arguments sem_wallet_utils__Bip32Path__m : simpl never.
+#[global] Arguments sem_wallet_utils__Bip32Path____init__ : simpl never.
+#[global] Arguments sem_wallet_utils__list_get : simpl never.
+#[global] Arguments vpath5 : simpl never.
+
+Lemma all_strs_map {A} (f : A -> list Z) l : all_strs (map (fun x => VStr (f x)) l) = Some (map f l).
+Proof. induction l as [|x r IH]; [reflexivity|]. cbn [map all_strs fold_right]. fold (all_strs (map (fun x => VStr (f x)) r)). rewrite IH. reflexivity. Qed.
+
+Lemma join_slash_concat items : List.concat (map (fun x : list Z => [47] ++ x) items) = join_slash items.
+Proof. induction items as [|x r IH]; [reflexivity|]. cbn [map List.concat join_slash]. rewrite IH. reflexivity. Qed.
+
+Lemma repr_sem ext fuel a b c d e prv :
+  sem_wallet_utils__Bip32Path____repr__ ext fuel [vpath5 a b c d e prv]
+  = Val (VStr (path_repr {| bp_items := [a; b; c; d; e]; bp_private := prv |})).
+Proof.
+  unfold sem_wallet_utils__Bip32Path____repr__, call, ast_wallet_utils__Bip32Path____repr__. pystep.
+  rewrite to_list_sem. pystep.
+  set (l := somes [a; b; c; d; e]).
+  rewrite (comp_map_map _ VInt (fun n => VStr (repr_hardened n))) by (intros n; pystep; rewrite repr_hardened_sem; reflexivity).
+  pystep. rewrite m_sem. pystep.
+  rewrite (all_strs_map repr_hardened). pystep.
+  unfold path_repr, to_list. cbn [bp_items bp_private]. fold l. rewrite join_slash_concat. reflexivity.
+Qed.
+
+(* ---- parse ---- *)
+Lemma split_on_eq c s : forall cur, Interp.split_on c s cur = WalletUtils.split_on c s cur.
+Proof. induction s as [|x r IH]; intros cur; cbn [Interp.split_on WalletUtils.split_on]; [reflexivity|]. rewrite !IH. reflexivity. Qed.
+
+Lemma ascii_rev s : ascii (rev s) = ascii s.
+Proof.
+  unfold ascii. induction s as [|x r IH]; [reflexivity|]. cbn [rev forallb]. rewrite forallb_app, IH. cbn [forallb].
+  rewrite andb_true_r. apply andb_comm.
+Qed.
+Lemma split_on_ascii s : forall cur, ascii s = true -> ascii cur = true ->
+  Forall (fun t => ascii t = true) (WalletUtils.split_on 47 s cur).
+Proof.
+  induction s as [|x r IH]; intros cur Hs Hc; cbn [WalletUtils.split_on].
+  - constructor; [rewrite ascii_rev; exact Hc|constructor].
+  - unfold ascii in Hs. cbn [forallb] in Hs. apply andb_true_iff in Hs as [Hx Hr].
+    destruct (x =? 47).
+    + constructor; [rewrite ascii_rev; exact Hc|]. apply IH; [exact Hr|reflexivity].
+    + apply IH; [exact Hr|]. unfold ascii. cbn [forallb]. rewrite Hx. exact Hc.
+Qed.
+
+(* one slot: list_get, the truthiness test and convert_hardened *)
+Definition slot_val (l : list str) (i : nat) : val :=
+  match nth_error (map VStr l) i with Some v => v | None => VNone end.
+Lemma slot_sem ext fuel l i :
+  Forall (fun t => ascii t = true) l ->
+  (if truthy (slot_val l i) then sem_wallet_utils__Bip32Path__convert_hardened ext fuel [slot_val l i] else Val VNone)
+  = match slot l i with Ok o => Val (vopt o) | Err => Exc ValueError end.
+Proof.
+  intros Ha. unfold slot_val, slot, str in *. rewrite nth_error_map.
+  destruct (nth_error l i) as [t|] eqn:E; cbn [option_map]; [|reflexivity].
+  assert (Ht : ascii t = true) by (rewrite Forall_forall in Ha; apply Ha; eapply nth_error_In; exact E).
+  destruct t as [|c r]; [reflexivity|].
+  cbn [truthy]. rewrite convert_hardened_sem by exact Ht.
+  destruct (convert_hardened (c :: r)); reflexivity.
+Qed.
+
+#[global] Arguments slot_val : simpl never.
+Lemma list_get_slot ext fuel l z : 0 <= z ->
+  sem_wallet_utils__list_get ext fuel [VList (map VStr l); VInt z] = Val (slot_val l (Z.to_nat z)).
+Proof. intros Hz. rewrite <- (Z2Nat.id z) at 1 by exact Hz. rewrite list_get_sem. reflexivity. Qed.
+
+Definition vpath (p : bpath) : val :=
+  match bp_items p with [a; b; c; d; e] => vpath5 a b c d e (bp_private p) | _ => VNone end.
+
+#[local] Arguments integrity : simpl never.
+Lemma parse_sem ext fuel s :
+  ascii s = true ->
+  agrees (sem_wallet_utils__Bip32Path__parse ext fuel [VStr s]) (rmap vpath (path_parse s)).
+Proof.
+  intros Ha.
+  unfold sem_wallet_utils__Bip32Path__parse, call, ast_wallet_utils__Bip32Path__parse, path_parse, split_slash.
+  pystep. rewrite split_on_eq.
+  assert (Hl := split_on_ascii s [] Ha eq_refl).
+  destruct (WalletUtils.split_on 47 s []) as [|first rest] eqn:Es.
+  { exfalso. exact (split_slash_nonempty s Es). }
+  pystep.
+  destruct (beq_bytes first [109] || (beq_bytes first [77] || false)) eqn:Em.
+  2:{ rewrite orb_false_r in Em. rewrite Em. pystep. exists ValueError. split; [reflexivity|split; discriminate]. }
+  rewrite orb_false_r in Em. rewrite Em.
+  change (VStr first :: map VStr rest) with (map VStr (first :: rest)).
+  set (prv := beq_bytes first [109]).
+  remember (first :: rest) as l eqn:El. clear Es.
+  pystep. do 5 (rewrite list_get_slot by lia; pystep).
+  rewrite !(slot_sem ext fuel l) by exact Hl.
+  unfold str in *.
+  destruct (slot l 1) as [a|]; [|exists ValueError; split; [reflexivity|split; discriminate]].
+  destruct (slot l 2) as [b|]; [|exists ValueError; split; [reflexivity|split; discriminate]].
+  destruct (slot l 3) as [c|]; [|exists ValueError; split; [reflexivity|split; discriminate]].
+  destruct (slot l 4) as [d|]; [|exists ValueError; split; [reflexivity|split; discriminate]].
+  destruct (slot l 5) as [e|]; [|exists ValueError; split; [reflexivity|split; discriminate]].
+  pystep. replace (index (map VStr l) 0) with (Val (VStr first)) by (rewrite El; reflexivity).
+  pystep. fold prv. rewrite init_sem.
+  destruct (integrity [a; b; c; d; e] false); cbn [rmap agrees vpath bp_items bp_private].
+  - destruct prv; reflexivity.
+  - exists RuntimeError. split; [reflexivity|split; discriminate].
+Qed.
+
+(* ---- what __repr__ prints is ASCII, so parse_sem applies to it ---- *)
+Lemma ascii_Forall s : Forall (fun c => 0 <= c < 128) s -> ascii s = true.
+Proof.
+  intros H. unfold ascii. apply forallb_forall. rewrite Forall_forall in H. intros c Hc. specialize (H c Hc). lia.
+Qed.
+Lemma repr_hardened_ascii v : 0 <= v < 4294967296 -> Forall (fun c => 0 <= c < 128) (repr_hardened v).
+Proof.
+  intros Hv.
+  assert (Hd : forall n, 0 <= n -> Forall (fun c => 0 <= c < 128) (WalletUtils.str_of_int n)).
+  { intros n Hn. unfold WalletUtils.str_of_int. destruct (n <? 0) eqn:E; [lia|].
+    destruct (str_of_nonneg_digits n Hn) as [Hf _]. eapply Forall_impl; [|exact Hf]. unfold dig. intros c Hc. cbv beta in Hc. lia. }
+  unfold repr_hardened. destruct (2147483648 <=? v) eqn:E.
+  - apply Forall_app. split; [apply Hd; lia|]. constructor; [lia|constructor].
+  - apply Hd. lia.
+Qed.
+Lemma join_slash_ascii items : Forall (fun x => Forall (fun c => 0 <= c < 128) x) items ->
+  Forall (fun c => 0 <= c < 128) (join_slash items).
+Proof.
+  induction 1 as [|x r Hx Hr IH]; cbn [join_slash]; [constructor|].
+  constructor; [lia|]. apply Forall_app. split; assumption.
+Qed.
+Lemma path_repr_ascii private l :
+  Forall (fun i => 0 <= i < 4294967296) l -> ascii (path_repr (path_of_list private l)) = true.
+Proof.
+  intros Hr. apply ascii_Forall. unfold path_repr, to_list, path_of_list. cbn [bp_items bp_private].
+  rewrite somes_path_of_list. apply Forall_app. split.
+  - destruct private; (constructor; [lia|constructor]).
+  - apply join_slash_ascii. apply Forall_map. eapply Forall_impl; [|exact Hr]. intros i Hi. apply repr_hardened_ascii. exact Hi.
+Qed.
+
+Lemma vpath_of_list private l : (List.length l <= 5)%nat ->
+  exists a b c d e, path_of_list private l = {| bp_items := [a; b; c; d; e]; bp_private := private |} /\ somes [a; b; c; d; e] = l.
+Proof.
+  intros Hl. destruct l as [|a [|b [|c [|d [|e [|f r]]]]]]; unfold path_of_list; cbn [map List.length Nat.sub repeat app];
+    [do 5 eexists; split; reflexivity ..|cbn [List.length] in Hl; lia].
+Qed.
+
+(* formatting and re-parsing at the level of the source: for every index list of at most five levels the source of
+   __repr__ prints the model's string, the source of parse maps that string back to the same object, and the source of
+   to_list returns the index list *)
+Theorem source_format_parse_id ext fuel private l :
+  (List.length l <= 5)%nat -> Forall (fun i => 0 <= i < 4294967296) l ->
+  let obj := vpath (path_of_list private l) in
+  sem_wallet_utils__Bip32Path____repr__ ext fuel [obj] = Val (VStr (path_repr (path_of_list private l))) /\
+  sem_wallet_utils__Bip32Path__parse ext fuel [VStr (path_repr (path_of_list private l))] = Val obj /\
+  sem_wallet_utils__Bip32Path__to_list ext fuel [obj] = Val (VList (map VInt l)).
+Proof.
+  intros Hl Hr obj.
+  assert (P := parse_sem ext fuel _ (path_repr_ascii private l Hr)).
+  rewrite (format_parse_id private l Hl Hr) in P. cbn [rmap agrees] in P.
+  destruct (vpath_of_list private l Hl) as (a & b & c & d & e & E & Es).
+  unfold obj in *. rewrite E in *. unfold vpath in *. cbn [bp_items bp_private] in *.
+  split; [apply repr_sem|]. split; [exact P|]. rewrite to_list_sem, Es. reflexivity.
+Qed.
